@@ -21,7 +21,11 @@ from pathlib import Path
 VERIF = Path(__file__).resolve().parent.parent
 LEAN = VERIF / "lean"
 REPO = Path(os.environ.get("PYPOSE_REPO", "/repo"))
-DRIVER_BIN = LEAN / ".lake" / "build" / "bin" / "posedriver"
+BIN_DIR = LEAN / ".lake" / "build" / "bin"
+
+
+def driver_bin(prop: str) -> Path:
+    return BIN_DIR / f"drv_{prop.lower()}"
 STD_AXIOMS = {"propext", "Classical.choice", "Quot.sound"}
 FORBIDDEN = re.compile(r"\bsorry\b|\badmit\b|^axiom |native_decide|bv_decide|implemented_by|\bunsafe |maxHeartbeats 0")
 
@@ -68,15 +72,16 @@ def fr(x) -> Fraction:
 class Driver:
     """Runs the Lean model's executable definitions (posedriver) on a batch of request lines."""
 
-    def __init__(self):
+    def __init__(self, prop: str = "C12"):
+        self.bin = driver_bin(prop)
         self.calls = 0
         self.lines = 0
 
     def run(self, lines: list[str], timeout: int = 3600) -> list[str]:
         if not lines:
             return []
-        if not DRIVER_BIN.exists():
-            raise InfraError(f"driver binary missing: {DRIVER_BIN} (run setup_cmd)")
+        if not self.bin.exists():
+            raise InfraError(f"driver binary missing: {self.bin} (run setup_cmd)")
         self.calls += 1
         self.lines += len(lines)
         nproc = min(16, max(1, len(lines) // 200))
@@ -86,7 +91,7 @@ class Driver:
         chunks = [lines[i::nproc] for i in range(nproc)]
         procs = []
         for ch in chunks:
-            p = subprocess.Popen([str(DRIVER_BIN)], stdin=subprocess.PIPE, stdout=subprocess.PIPE,
+            p = subprocess.Popen([str(self.bin)], stdin=subprocess.PIPE, stdout=subprocess.PIPE,
                                  stderr=subprocess.PIPE, text=True)
             procs.append((p, ch))
         import threading
@@ -109,7 +114,7 @@ class Driver:
         return res
 
     def _run1(self, lines, timeout):
-        p = subprocess.run([str(DRIVER_BIN)], input="\n".join(lines) + "\n", capture_output=True,
+        p = subprocess.run([str(self.bin)], input="\n".join(lines) + "\n", capture_output=True,
                            text=True, timeout=timeout)
         out = p.stdout.split("\n")
         if out and out[-1] == "":
@@ -200,7 +205,7 @@ def audit(prop: str, thorough: bool = False) -> dict:
     Returns dict(ok, obligations, discharged, axioms, failures, checker_cmd)."""
     props = LEAN / "Proofs" / "Props" / f"{prop}.lean"
     res = {"ok": False, "obligations": 0, "discharged": 0, "axioms": {}, "failures": [],
-           "checker_cmd": f"cd lean && lake build Pose Proofs.Props.{prop} posedriver && lake env lean Audit/{prop}.lean",
+           "checker_cmd": f"cd lean && lake build Proofs.Props.{prop} drv_{prop.lower()} && lake env lean Audit/{prop}.lean",
            "theorems": []}
     if not props.exists():
         res["failures"].append(f"missing {props}")
@@ -208,7 +213,7 @@ def audit(prop: str, thorough: bool = False) -> dict:
     names = theorem_names(props)
     res["theorems"] = names
     res["obligations"] = len(names)
-    ok, log = lake_build(["Pose", f"Proofs.Props.{prop}", "posedriver"])
+    ok, log = lake_build([f"Proofs.Props.{prop}", f"drv_{prop.lower()}"])
     res["build_log_tail"] = log[-1500:]
     if not ok:
         bad = re.findall(r"error: (\S+\.lean:\d+:\d+: .*)", log)
@@ -275,7 +280,7 @@ class Ctx:
     def __init__(self, prop: str, tier: str, seed: int):
         self.prop, self.tier, self.seed = prop, tier, seed
         self.rng = random.Random(seed * 1000003 + int(prop[1:]))
-        self.driver = Driver()
+        self.driver = Driver(prop)
         self.evaluations = 0
         self.sigs: set = set()
         self.samples: list = []
